@@ -2574,6 +2574,24 @@ class MOFWBEMConnection(BaseRepositoryConnection):
                         conn_id=self.conn_id)
                 raise
 
+            # The new class must not be among its own ancestors (a class that
+            # exists can be re-declared, e.g. as a subclass of its subclass)
+            sup, seen = cc.superclass, []
+            while sup and sup.lower() not in seen:
+                if sup.lower() == cc.classname.lower():
+                    raise CIMError(
+                        CIM_ERR_INVALID_SUPERCLASS,
+                        _format("Cannot create class {0} because its "
+                                "superclass {1!A} is the class itself or one "
+                                "of its subclasses",
+                                cc_path, cc.superclass),
+                        conn_id=self.conn_id)
+                seen.append(sup.lower())
+                try:
+                    sup = self.classes[ns][sup].superclass
+                except KeyError:
+                    break
+
         self.compile_ordered_classnames.append(cc.classname)
 
         # Class created in local repo before tests because that allows
